@@ -2,7 +2,8 @@
   C15 — State tomography reconstructs the prepared state.
 
   Only the property theorems and their non-vacuity examples live here; proofs are in
-  LW/Proofs/{TomoKron,TomoLocal,C15Expect,C15,C15Pure,C15Circuits}.lean.
+  LW/Proofs/{TomoKron,TomoLocal,C15Expect,C15,C15Pure,C15Circuits,C15Main}.lean and, for the
+  circuits clause with ancillas, LW/Proofs/{C15Full,C15Full2,C15Full3,C15Full4,C15Full5,C15Cex}.lean.
 
   Model: LW.Model.Tomo (`process` mirrors `StateTomography.process`, `expectation`
   `_calculate_expectation_value`, `densityMatrix` `_calculate_density_matrix`, `tomoMeasurements` /
@@ -13,10 +14,27 @@
   any field `K` with a star (in particular ℂ), the two float constants of the code entering through
   `Consts i h` (`i² = -1`, `conj i = -i`, `h` real, `2h² = 1`), every order in which the callback
   may see the settings and every ordering of the entries of each result dictionary.
+
+  Circuits clause (which circuit `process()` hands to the experiment callback for a setting):
+    * PROVED for every base circuit satisfying the bookkeeping invariant `Circ.WF` — hence for every
+      circuit constructible through the API (`Reach`), with heralded sub-circuits / private ancilla
+      modes anywhere (`requested_circuits_corrected`, `requested_circuits_constructible`): the
+      requested circuit is the base, unchanged, followed by the 2×2 unitaries of each qubit's basis
+      change acting on the two FULL modes `_map_mode(2k)`, `_map_mode(2k+1)` that carry the rails of
+      qubit `k`; ancillas lying between the two rails are passed through untouched.
+    * FOUND FALSE: the statement as first written (`requested_circuits_statement`, kept below) placed
+      each basis change on the ADJACENT full modes `_map_mode(2k)`, `_map_mode(2k)+1`.  Witness
+      (`requested_circuits_statement_false`): `base = Circuit(2).add(S, 0)` with `S = Circuit(3)`
+      heralded on its middle mode — constructible, 2 input modes, the ancilla is full mode 1 and the
+      rails of the qubit are full modes 0 and 2; for the setting `X` the requested circuit applies
+      `H` on full modes (0, 2), the original statement claims (0, 1).  The original statement does
+      hold when no ancilla lies between the rails of any qubit (`requested_circuits_partial` for no
+      ancillas at all; LW/Proofs/C15Full4.lean `requested_circuits_adjacent` in general).
 -/
 import Mathlib.Analysis.Real.Sqrt
 import Mathlib.Data.Complex.Basic
 import LW.Proofs.C15Main
+import LW.Proofs.C15Cex
 
 open scoped BigOperators
 
@@ -98,8 +116,8 @@ theorem process_rejects_wrong_result_count (i : K) (n : Nat) (order : List Meas)
 the base specification, unchanged, followed by the setting's basis-change unitaries on the mode
 pairs `(2k, 2k+1)`; hence its `U_full` is the base's `U_full` followed by those components.
 The base value itself is not touched (the model is purely functional; C08 frame).
-PARTIAL: base circuits containing heralded sub-circuits need the refinement theorem of `Circuit.add`
-(C02 `sem_add`, not proved); the full statement is `requested_circuits_statement`. -/
+(No invariant is needed in this case; base circuits with ancillas are covered by
+`requested_circuits_corrected`.) -/
 theorem requested_circuits_partial {R : Type} [CommRing R] (i h : R) (nQ : Nat) (base : Circ R)
     (hint : base.internal = []) (hn : base.n = 2 * nQ) (s : Meas) (hs : s.length = nQ) :
     createCircuit nQ base (s.map (measCirc i h))
@@ -108,9 +126,11 @@ theorem requested_circuits_partial {R : Type} [CommRing R] (i h : R) (nQ : Nat) 
         = (basisChangeSpec i h 0 s).foldl (compileComp i) (base.Ufull i) :=
   ⟨createCircuit_plain i h nQ base hint hn s hs, requested_Ufull i h base s⟩
 
-/-- full statement of the circuits clause (any base with `2n` input modes, ancillas allowed):
+/-- the circuits clause as ORIGINALLY stated (any base with `2n` input modes, ancillas allowed):
 the requested circuit keeps the base's heralds and its `U_full` is the base's followed by the
-basis changes embedded on the internal positions of the visible mode pairs -/
+basis changes placed, as 2-mode blocks, at full mode `_map_mode(2k)` — i.e. on the adjacent full
+modes `_map_mode(2k)`, `_map_mode(2k) + 1`.  FALSE (`requested_circuits_statement_false`); the
+corrected statement is `requested_circuits_corrected_statement`. -/
 def requested_circuits_statement : Prop :=
   ∀ (R : Type) [CommRing R] (i h : R) (nQ : Nat) (base : Circ R) (s : Meas),
     base.inputModes = 2 * nQ → s.length = nQ →
@@ -120,6 +140,84 @@ def requested_circuits_statement : Prop :=
         (fun U ks => ((measCirc i h ks.2).spec.map
             (Comp.shift (base.mapMode (2 * (ks.1 : Int))).toNat)).foldl (compileComp i) U)
         (base.Ufull i)
+
+/-- The original statement is false.  Witness: the constructible base `Circuit(2).add(S, 0)`, `S`
+a 3-mode circuit heralded on its middle mode (ancilla = full mode 1, between the rails 0 and 2 of
+the only qubit), setting `X`, over ℤ with `h = 1`: entry `(0, 1)` of `U_full` of the circuit
+`_create_circuit` returns is 0, the original right-hand side has 1 there. -/
+theorem requested_circuits_statement_false : ¬ requested_circuits_statement :=
+  requested_circuits_original_false
+
+/-- the witness base circuit is constructible through the API, has two input modes, and the rails of
+its qubit sit on the full modes 0 and 2 -/
+theorem requested_circuits_witness_constructible :
+    Reach cexBase ∧ cexBase.inputModes = 2 * 1 ∧ cexBase.mapMode 0 = 0 ∧ cexBase.mapMode 1 = 2 :=
+  ⟨cexBase_reach, cexBase_inputModes, cexBase_rails.1, cexBase_rails.2⟩
+
+/-- `MEASUREMENT_MAPPING[g]` is a herald-free 2-mode circuit whose components are the 2×2 unitaries
+`measUs i h g` (`[H]`, `[S, Z, H]`, `[1]`, `[1]` for `X, Y, Z, I`), each on its modes 0, 1. -/
+theorem basis_change_components {R : Type} [CommRing R] (i h : R) (g : Pauli) :
+    (measCirc i h g).n = 2 ∧ (measCirc i h g).inHer = [] ∧ (∀ u ∈ measUs i h g, u.n = 2) ∧
+      (measCirc i h g).spec = (measUs i h g).map fun u => Comp.prim (.unitary 0 u) :=
+  ⟨measCirc_n i h g, measCirc_inHer i h g, measUs_n i h g, measCirc_spec i h g⟩
+
+/-- Requested circuits, CORRECTED full statement: for every base circuit satisfying the bookkeeping
+invariant `Circ.WF` (heralds / ancillas anywhere) with `2·nQ` input modes, `_create_circuit` returns
+the base with only its specification extended (by `railSpec`: one `Unitary` component per 2×2 matrix
+of each qubit's basis change, see `rail_component_acts_on_rails`) — same number of full modes, same
+heralds, same ancilla list — and its `U_full` is the base's `U_full` followed, for each qubit `k` in
+order, by the 2×2 unitaries of the basis change of `s[k]` acting on the two full modes
+`_map_mode(2k)` and `_map_mode(2k+1)` that carry the rails of qubit `k` (`embed2 N a b …` is the
+identity on every other mode, so an ancilla between the rails is passed through untouched). -/
+def requested_circuits_corrected_statement : Prop :=
+  ∀ (R : Type) [CommRing R] (i h : R) (nQ : Nat) (base : Circ R) (s : Meas),
+    base.WF → base.inputModes = 2 * nQ → s.length = nQ →
+    ∃ c, createCircuit nQ base (s.map (measCirc i h)) = .ok c ∧
+      c = { base with spec := base.spec ++ railSpec i h base s } ∧
+      c.n = base.n ∧ c.inHer = base.inHer ∧ c.outHer = base.outHer ∧ c.internal = base.internal ∧
+      Circ.Ufull i c = ((List.range nQ).zip s).foldl
+        (fun U ks => (measUs i h ks.2).foldl
+          (fun U u =>
+            (embed2 U.n (base.mapMode (2 * (ks.1 : Int))).toNat
+              (base.mapMode (2 * (ks.1 : Int) + 1)).toNat
+              (u.get 0 0) (u.get 0 1) (u.get 1 0) (u.get 1 1)).mul U) U)
+        (base.Ufull i)
+
+theorem requested_circuits_corrected : requested_circuits_corrected_statement :=
+  fun _ _ i h nQ base s hwf hin hs => Tomo.requested_circuits_corrected i h nQ base s hwf hin hs
+
+/-- … in particular for every base circuit constructible through the API (`Reach`;
+LW/Properties/Reach.lean `reach_WF`). -/
+theorem requested_circuits_constructible {R : Type} [CommRing R] [StarRing R] (i h : R) (nQ : Nat)
+    (base : Circ R) (s : Meas) (hreach : Reach base) (hin : base.inputModes = 2 * nQ)
+    (hs : s.length = nQ) :
+    ∃ c, createCircuit nQ base (s.map (measCirc i h)) = .ok c ∧
+      c = { base with spec := base.spec ++ railSpec i h base s } ∧
+      c.n = base.n ∧ c.inHer = base.inHer ∧ c.outHer = base.outHer ∧ c.internal = base.internal ∧
+      Circ.Ufull i c = ((List.range nQ).zip s).foldl
+        (fun U ks => (measUs i h ks.2).foldl
+          (fun U u =>
+            (embed2 U.n (base.mapMode (2 * (ks.1 : Int))).toNat
+              (base.mapMode (2 * (ks.1 : Int) + 1)).toNat
+              (u.get 0 0) (u.get 0 1) (u.get 1 0) (u.get 1 1)).mul U) U)
+        (base.Ufull i) :=
+  requested_circuits_reach i h nQ base s hreach hin hs
+
+/-- Each component of `railSpec` is `Unitary(stretchU t u)` placed at full mode `a = _map_mode(2k)`,
+with `t = railGap base (2k)` the number of ancillas between the rails (`stretchU t u` is
+`add_mode_to_unitary` applied at positions `1, …, t`, as `Circuit.add` does); compiled, it is the
+2×2 unitary `u` on the full modes `a` and `a + t + 1 = _map_mode(2k+1)`, identity elsewhere. -/
+theorem rail_component_acts_on_rails {R : Type} [CommRing R] (i : R) (U : M R) (a t : Nat) (u : M R)
+    (hu : u.n = 2) :
+    compileComp i U (.prim (.unitary a (stretchU t u)))
+      = (embed2 U.n a (a + t + 1) (u.get 0 0) (u.get 0 1) (u.get 1 0) (u.get 1 1)).mul U :=
+  railComp_compile i U a t u hu
+
+/-- the full modes of the two rails of qubit `k` are `railGap base (2k) + 1` apart -/
+theorem rail_positions {R : Type} [CommRing R] (base : Circ R) (k : Nat) :
+    (base.mapMode (2 * (k : Int))).toNat + railGap base (2 * k) + 1
+      = (base.mapMode (2 * (k : Int) + 1)).toNat :=
+  railGap_rails base k
 
 /-- `_create_circuit` raises `ValueError` for a wrong number of operators. -/
 theorem create_circuit_rejects_wrong_length {R : Type} [CommRing R] (nQ : Nat) (base : Circ R)
@@ -145,5 +243,16 @@ example :
   Proofs.C15.example_instance
 
 end
+
+/-- non-vacuity of `requested_circuits_constructible` on a base with an ancilla BETWEEN the rails:
+`base = Circuit(2).add(S, 0)`, `S = Circuit(3)` heralded on its middle mode (constructible,
+`requested_circuits_witness_constructible`), setting `X`, over ℤ with `h = 1`: the requested circuit
+has the base's 3 full modes and heralds, and its `U_full` is `[[1, 1], [1, -1]]` on the full modes
+0 and 2 (ancilla mode 1 untouched) after the base's. -/
+example :
+    ∃ c, createCircuit 1 cexBase ([Pauli.X].map (measCirc (0 : Int) 1)) = .ok c ∧
+      c.n = 3 ∧ c.inHer = [(1, 0)] ∧ c.outHer = [(1, 0)] ∧
+      Circ.Ufull 0 c = (embed2 3 0 2 1 1 1 (-1)).mul (cexBase.Ufull 0) :=
+  cex_corrected_instance
 
 end LW.C15
